@@ -68,7 +68,15 @@ def single_step(spec):
 
 
 def one_cell(spec):
-    return spec['nx'] * spec['ny'] == 1
+    """one cell per layer, in the file as generated or after the ROW/COL
+    window of spec['slice'] (C08/C09 cut the re-read file before writing)"""
+    nx, ny = spec['nx'], spec['ny']
+    sl = spec.get('slice') or {}
+    if 'COL' in sl:
+        nx = sl['COL'][1] - sl['COL'][0]
+    if 'ROW' in sl:
+        ny = sl['ROW'][1] - sl['ROW'][0]
+    return nx * ny == 1
 
 
 def crosses_midnight(spec, with_end):
